@@ -537,3 +537,28 @@ pub fn curve_sweep(seed: u64, n: usize) -> Vec<Value> {
     }
     out
 }
+
+/// full circles and long arcs with unrounded f32 centres / radii / angles under random rotations and scales: each one
+/// puts dozens of quadratics through the monotonicity test and the unit divide of the path -> edge stage with values that
+/// are within an ulp of the branch conditions far more often than hand-picked coordinates are.  Outcome-only scenarios.
+pub fn arc_fuzz(seed: u64, n: usize) -> Vec<Value> {
+    let mut r = Rng::new(seed ^ 0xA2CF);
+    let mut out = Vec::new();
+    for i in 0..n {
+        let (cx, cy) = (r.frange(2.0, 14.0), r.frange(2.0, 14.0));
+        let rad = r.frange(0.3, 9.0);
+        // half of them start on an axis and are not rotated: the pieces of the arc then meet exactly at the circle's
+        // top and bottom, where a piece's control point and end point are level up to rounding
+        let axis = r.chance(1, 2);
+        let a0 = if axis { (r.range(0, 3) as f64) * std::f64::consts::FRAC_PI_2 } else { r.frange(-7.0, 7.0) };
+        let sw = if r.chance(1, 2) { 7.0 } else { r.frange(3.0, 6.4) } * if r.chance(1, 2) { 1.0 } else { -1.0 };
+        let ang = if axis { (r.range(0, 3) as f64) * std::f64::consts::FRAC_PI_2 } else { r.frange(0.0, 6.283) };
+        let sc = r.frange(0.4, 2.5);
+        let (ca, sa) = (ang.cos() * sc, ang.sin() * sc);
+        let m = if r.chance(1, 3) { vec![1.0, 0.0, 0.0, 1.0, 0.0, 0.0] } else { vec![ca, sa, -sa, ca, 8.0 - 8.0 * (ca - sa), 8.0 - 8.0 * (sa + ca)] };
+        out.push(json!({"id": format!("drv-arc-fuzz-{}-{}", seed, i), "fam": "stroke", "kind": if r.chance(1, 6) { "clip" } else { "fill" },
+                         "w": 16, "h": 16, "den": 1, "ops": [["A", cx, cy, rad, a0, sw]], "rule": "NonZero",
+                         "ctm": {"m": m, "mden": 1}, "light": true}));
+    }
+    out
+}
